@@ -112,4 +112,119 @@ theorem dtm_fill_uniform (u : Uc) (plane : Nat) (v : UInt8) (hp : u.partialOn = 
       = List.replicate (if plane = 0 then u.p1 else u.p2).size v :=
   (dtm_full u plane _ hp (by simp)).1
 
+/-! ## window fill (session 4) -/
+
+/-- generic: a position function that is `some (idx k)` with pairwise different, in-range indices on
+    `[0, N)` — bytes `k0, k0+1, …` of the block land at `idx k0, idx (k0+1), …`, nothing else moves,
+    every byte is stored -/
+theorem storeAt_inj (pos : Nat → Option Nat) (idx : Nat → Nat) (N : Nat)
+    (hpos : ∀ k, k < N → pos k = some (idx k))
+    (hinj : ∀ k k', k < N → k' < N → idx k = idx k' → k = k') (bs : List UInt8) :
+    ∀ (a : Array UInt8) (k0 n : Nat), (∀ k, k < N → idx k < a.size) → k0 + bs.length ≤ N →
+      (storeAt pos a bs k0 n).2 = n + bs.length ∧
+      (∀ i (hi : i < bs.length), (storeAt pos a bs k0 n).1[idx (k0 + i)]? = some bs[i]) ∧
+      (∀ j, (∀ i, i < bs.length → idx (k0 + i) ≠ j) → (storeAt pos a bs k0 n).1[j]? = a[j]?) := by
+  induction bs with
+  | nil =>
+    intro a k0 n _ _
+    exact ⟨rfl, fun i hi => absurd hi (Nat.not_lt_zero _), fun j _ => rfl⟩
+  | cons b bs ih =>
+    intro a k0 n hr hk
+    simp only [List.length_cons] at hk
+    have hp : pos k0 = some (idx k0) := hpos k0 (by omega)
+    have hlt : idx k0 < a.size := hr k0 (by omega)
+    simp only [storeAt, hp, if_pos hlt]
+    have hr' : ∀ k, k < N → idx k < (a.setIfInBounds (idx k0) b).size := by
+      intro k hk'; simpa using hr k hk'
+    have := ih (a.setIfInBounds (idx k0) b) (k0 + 1) (n + 1) hr' (by omega)
+    refine ⟨by rw [this.1]; simp only [List.length_cons]; omega, ?_, ?_⟩
+    · intro i hi
+      cases i with
+      | zero =>
+        have h0 := this.2.2 (idx k0) (by
+          intro i hi' he
+          have := hinj (k0 + 1 + i) k0 (by omega) (by omega) he
+          omega)
+        simp only [Nat.add_zero, List.getElem_cons_zero]
+        rw [h0]
+        simp [hlt]
+      | succ i =>
+        have h1 := this.2.1 i (by simpa using hi)
+        have e : k0 + (i + 1) = k0 + 1 + i := by omega
+        simp only [List.getElem_cons_succ, e]
+        exact h1
+    · intro j hj
+      have h2 := this.2.2 j (by
+        intro i hi
+        have := hj (i + 1) (by simp only [List.length_cons]; omega)
+        have e : k0 + (i + 1) = k0 + 1 + i := by omega
+        rwa [e] at this)
+      rw [h2]
+      have hne : idx k0 ≠ j := by simpa using hj 0 (by simp)
+      exact Array.getElem?_setIfInBounds_ne hne
+
+/-- index of the k-th byte of a window write -/
+def winIdx (stride c0 wb r0 k : Nat) : Nat := (r0 + k / wb) * stride + (c0 + k % wb)
+
+theorem winPos_some (stride c0 wb r0 h k : Nat) (hwb : 0 < wb) (hc : c0 + wb ≤ stride) (hk : k < wb * h) :
+    winPos stride c0 wb r0 h k = some (winIdx stride c0 wb r0 k) := by
+  unfold winPos winIdx
+  have h1 : k / wb < h := (Nat.div_lt_iff_lt_mul hwb).2 (by rw [Nat.mul_comm]; exact hk)
+  have h2 : k % wb < wb := Nat.mod_lt _ hwb
+  rw [if_neg (by omega), if_pos ⟨h1, by omega⟩]
+
+theorem winIdx_inj (stride c0 wb r0 k k' : Nat) (hwb : 0 < wb) (hc : c0 + wb ≤ stride)
+    (he : winIdx stride c0 wb r0 k = winIdx stride c0 wb r0 k') : k = k' := by
+  unfold winIdx at he
+  have h2 : k % wb < wb := Nat.mod_lt _ hwb
+  have h2' : k' % wb < wb := Nat.mod_lt _ hwb
+  have m1 : ((r0 + k / wb) * stride + (c0 + k % wb)) % stride = c0 + k % wb := by
+    rw [Nat.mul_comm, Nat.mul_add_mod]; exact Nat.mod_eq_of_lt (by omega)
+  have m2 : ((r0 + k' / wb) * stride + (c0 + k' % wb)) % stride = c0 + k' % wb := by
+    rw [Nat.mul_comm, Nat.mul_add_mod]; exact Nat.mod_eq_of_lt (by omega)
+  have er : k % wb = k' % wb := by rw [he] at m1; omega
+  have eq : (r0 + k / wb) * stride = (r0 + k' / wb) * stride := by omega
+  have hs : 0 < stride := by omega
+  have eq' : r0 + k / wb = r0 + k' / wb := Nat.eq_of_mul_eq_mul_right hs eq
+  have d1 := Nat.div_add_mod k wb
+  have d2 := Nat.div_add_mod k' wb
+  have e3 : k / wb = k' / wb := by omega
+  calc k = wb * (k / wb) + k % wb := d1.symm
+    _ = wb * (k' / wb) + k' % wb := by rw [e3, er]
+    _ = k' := d2
+
+theorem winIdx_lt (stride c0 wb r0 h k size : Nat) (hwb : 0 < wb) (hc : c0 + wb ≤ stride)
+    (hs : (r0 + h) * stride ≤ size) (hk : k < wb * h) : winIdx stride c0 wb r0 k < size := by
+  unfold winIdx
+  have h1 : k / wb < h := (Nat.div_lt_iff_lt_mul hwb).2 (by rw [Nat.mul_comm]; exact hk)
+  have h2 : k % wb < wb := Nat.mod_lt _ hwb
+  have : (r0 + k / wb + 1) * stride ≤ (r0 + h) * stride := Nat.mul_le_mul_right _ (by omega)
+  rw [Nat.add_mul, Nat.one_mul] at this
+  omega
+
+/-- **window fill (UC81xx partial mode / 2.7in windowed data)**: a block of exactly `wb * h` bytes
+    fills the window row by row — byte `k` at row `r0 + k / wb`, byte column `c0 + k % wb` — every
+    byte is stored (none dropped), and every cell outside the window keeps its content.  Any window
+    inside the plane, any stride, any previous content. -/
+theorem storeAt_window (stride c0 wb r0 h : Nat) (a : Array UInt8) (bs : List UInt8)
+    (hwb : 0 < wb) (hc : c0 + wb ≤ stride) (hs : (r0 + h) * stride ≤ a.size) (hl : bs.length = wb * h) :
+    (storeAt (winPos stride c0 wb r0 h) a bs 0 0).2 = wb * h ∧
+    (storeAt (winPos stride c0 wb r0 h) a bs 0 0).1.size = a.size ∧
+    (∀ k (hk : k < bs.length), (storeAt (winPos stride c0 wb r0 h) a bs 0 0).1[winIdx stride c0 wb r0 k]? = some bs[k]) ∧
+    (∀ j, (∀ k, k < wb * h → winIdx stride c0 wb r0 k ≠ j) →
+      (storeAt (winPos stride c0 wb r0 h) a bs 0 0).1[j]? = a[j]?) := by
+  have g := storeAt_inj (winPos stride c0 wb r0 h) (winIdx stride c0 wb r0) (wb * h)
+    (fun k hk => winPos_some stride c0 wb r0 h k hwb hc hk)
+    (fun k k' _ _ he => winIdx_inj stride c0 wb r0 k k' hwb hc he) bs a 0 0
+    (fun k hk => winIdx_lt stride c0 wb r0 h k a.size hwb hc hs hk) (by omega)
+  refine ⟨by rw [g.1, hl]; omega, storeAt_size _ _ _ _ _, ?_, ?_⟩
+  · intro k hk
+    have := g.2.1 k hk
+    rwa [Nat.zero_add] at this
+  · intro j hj
+    apply g.2.2 j
+    intro i hi
+    rw [Nat.zero_add]
+    exact hj i (by omega)
+
 end EpdVerif
